@@ -23,6 +23,7 @@ type gval struct {
 	tok   string // protocol token (scalar), or "" for groups
 	items []gattr
 	text  string   // for string-like kinds: the exact text that must come back
+	jtext string   // where JSON mode prints another text than the other modes (TextMarshaler values): that text
 	list  []string // for slices of string-like / numeric texts
 }
 
@@ -34,6 +35,11 @@ type gattr struct {
 }
 
 type c04Stringer struct{ s string }
+
+// c04TextM implements encoding.TextMarshaler only (no Stringer, no json.Marshaler)
+type c04TextM struct{ s string }
+
+func (c c04TextM) MarshalText() ([]byte, error) { return []byte(c.s), nil }
 
 func (c c04Stringer) String() string { return c.s }
 
@@ -242,6 +248,11 @@ func (g *rng) genScalar(legalOnly bool) gval {
 			t = append(t, xs[i].Format(time.RFC3339Nano))
 		}
 		return gval{kind: "[]time", goVal: xs, tok: "TL:" + hexJoin(t), list: t}
+	case 27:
+		// an encoding.TextMarshaler: its text (quoted like a string) outside JSON, the %v rendering in JSON
+		v := c04TextM{g.text(10, legalOnly)}
+		fb := fmt.Sprintf("{{%v}}", v)
+		return gval{kind: "textm", goVal: v, tok: "M:" + hxs(v.s) + ":" + hxs(fb), text: v.s, jtext: fb}
 	case 25, 26:
 		var v any
 		switch g.intn(5) {
